@@ -50,6 +50,71 @@ Theorem C19_square_algebras_positive_unitary_is_the_identity :
 Proof. exact: square_algebras_positive_unitary_is_identity. Qed.
 Print Assumptions C19_square_algebras_positive_unitary_is_the_identity.
 
+(* -- equally spaced positive unitary HRR vectors, in the Fourier domain, for every d and n -- *)
+From NSpa Require Import Model.Hrr Theory.Conv Theory.ElemLaws Theory.PowerLaws Theory.Fourier Theory.EquallySpaced.
+
+Section C19EquallySpaced.
+Variables (R C : comRingType) (iota : {rmorphism R -> C}) (p : nat) (w : C).
+Local Notation d := p.+1.
+Hypothesis w_d : w ^+ d = 1.
+Hypothesis orth : forall j : 'I_d, j != 0 -> \sum_k chi w k j = 0.
+Hypothesis d_reg : GRing.lreg (d%:R : C).
+Hypothesis iota_inj : injective iota.
+Variables (v : nat -> seq R) (s : seq R) (o r : 'I_d -> C).
+Hypothesis size_v : forall j, size (v j) = d.
+Hypothesis size_s : size s = d.
+Hypothesis spec_v : forall j k, spectrum iota w (v j) k = o k * r k ^+ j.
+Hypothesis spec_s : forall k, spectrum iota w s k = r k.
+
+Theorem C19_equally_spaced_next_is_previous_bound_with_one_fixed_step :
+  forall j, v j.+1 = hrr_bind_core (v j) s.
+Proof. by move=> *; exact: (next_is_previous_bound_with_step w_d orth d_reg iota_inj size_v spec_v spec_s). Qed.
+
+Theorem C19_equally_spaced_returns_to_the_first_after_n_steps :
+  forall n j, (forall k, r k ^+ n = 1) -> v (j + n)%N = v j /\ hrr_pow_nat s n = hrr_identity R d.
+Proof.
+  move=> n j rn; split.
+    exact: (returns_after_n_steps w_d orth d_reg iota_inj size_v spec_v).
+  exact: (step_power_n_is_identity w_d orth d_reg iota_inj size_s spec_s).
+Qed.
+
+Theorem C19_equally_spaced_offset_zero_starts_at_the_identity :
+  (forall k, o k = 1) -> v 0%N = hrr_identity R d.
+Proof. exact: (offset_zero_starts_at_identity w_d orth d_reg iota_inj size_v spec_v). Qed.
+
+Theorem C19_equally_spaced_vectors_are_unitary :
+  forall j, (forall k, r k * r (- k) = 1) -> (forall k, o k * o (- k) = 1) ->
+  hrr_bind_core (v j) (hrr_invert (v j)) = hrr_identity R d.
+Proof. by move=> *; exact: (every_vector_is_unitary w_d orth d_reg iota_inj size_v spec_v). Qed.
+End C19EquallySpaced.
+Print Assumptions C19_equally_spaced_next_is_previous_bound_with_one_fixed_step.
+Print Assumptions C19_equally_spaced_returns_to_the_first_after_n_steps.
+Print Assumptions C19_equally_spaced_offset_zero_starts_at_the_identity.
+Print Assumptions C19_equally_spaced_vectors_are_unitary.
+
+(* the hypotheses are met: d = 2 over the integers, w = -1, the two vectors (1,0), (0,1),
+   step (0,1) with spectrum (1,-1), n = 2 *)
+Example C19_equally_spaced_hypotheses_met :
+  let w : int := -1 in
+  let v := fun j : nat => if odd j then [:: 0; 1] else [:: 1; 0] : seq int in
+  let s := [:: 0; 1] : seq int in
+  let r := fun k : 'I_2 => if k == 0 then 1 else -1 : int in
+  [/\ w ^+ 2 = 1, (forall j : 'I_2, j != 0 -> \sum_k chi w k j = 0) & GRing.lreg (2%:R : int)] /\
+  [/\ (forall j k, spectrum [rmorphism of idfun] w (v j) k = 1 * r k ^+ j),
+      (forall k, spectrum [rmorphism of idfun] w s k = r k) & (forall k, r k ^+ 2 = 1)].
+Proof.
+  split; split=> //.
+  - by move=> j; rewrite !big_ord_recl big_ord0 /chi /=; case: j => [[|[|m]]] //=.
+  - by apply/lregP.
+  - move=> j k; rewrite /spectrum /dft !big_ord_recl big_ord0 /chi /= mul1r.
+    case: k => [[|[|m]]] //= _; case oj: (odd j) => /=; rewrite ?muln0 ?muln1 ?expr0 ?expr1 ?expr1n //=.
+    + by rewrite -signr_odd oj.
+    + by rewrite -signr_odd oj.
+  - by move=> k; rewrite /spectrum /dft !big_ord_recl big_ord0 /chi /=; case: k => [[|[|m]]].
+  - by move=> k; case: k => [[|[|m]]].
+Qed.
+Print Assumptions C19_equally_spaced_hypotheses_met.
+
 From mathcomp Require Import ssrZ.
 From Coq Require Import ZArith.
 (* non-vacuity of the orthogonalisation step: one earlier vector (1,1,0), draw (2,3,4), solved prefix x = (-3) *)
